@@ -230,9 +230,6 @@ def gen_case(rng, row, tm, quick, force=None):
                       "gdet": rng.choice(["disabled", "enabled_eleapi", "enabled"]),
                       "check_all": rng.choice(["default", "check_all_signatures"]) if ver == 2 else None,
                       "blob": blob, "images": images, "overfull": overfull})
-        cc = conts[-1]
-        if cc["check_all"] == "check_all_signatures" and cc["gdet"] == "enabled" and rng.random() < 0.9:
-            cc["gdet"] = rng.choice(["disabled", "enabled_eleapi"])   # the other combination is the known finding C06-v2-check-all-shift
     return {"family": row["family"], "revision": row["revision"], "tm": tm, "ver": ver, "force_version": len(types) > 1,
             "containers": conts}
 
@@ -293,7 +290,11 @@ def model_lines(case, ahab, with_signatures=True):
                          f"{e.image_meta_data} {e.gap_after_image} {e.image_size_alignment or 0}")
         sb = c.signature_block
         if sb.srk_assets:
-            if v2:
+            if v2 and len(sb.srk_assets._srk_tables) == 1 and all(r.srk_data is not None for r in sb.srk_assets._srk_tables[0].srk_records):
+                # version 2: record fields + key data; the model computes SRK data blocks, their hashes, table and array
+                for r in sb.srk_assets._srk_tables[0].srk_records:
+                    lines.append(f"srk2rec {r.version} {r.hash_algorithm.tag} {r.key_size} {r.srk_flags} {hexs(r.srk_data.data)}")
+            elif v2:
                 lines.append("srk " + hexs(sb.srk_assets.export()))
             else:
                 for r in sb.srk_assets.srk_records:
@@ -306,6 +307,36 @@ def model_lines(case, ahab, with_signatures=True):
             lines.append(f"blob {b.flags} {b._size} {b.algorithm.tag} {b.mode} {b.length} {hexs(b.dek_keyblob)} {b.key_identifier} "
                          f"{hexs(b.dek) if b.dek else 'none'}")
     return lines
+
+
+def real_parse_dump(a2):
+    """the parsed SPSDK objects in the format of the model driver's `parse` answer"""
+    from spsdk.image.ahab.ahab_container import AHABContainerV2
+
+    def sha(b):
+        return hashlib.sha256(bytes(b)).hexdigest()
+    parts = []
+    for c in a2.ahab_containers:
+        v2 = isinstance(c, AHABContainerV2)
+        sb = c.signature_block
+        if not sb.srk_assets:
+            srk = "-"
+        elif v2:
+            raw = sb.srk_assets.export()
+            srk = f"raw:{len(raw)}:{sha(raw)}"
+        else:
+            t = sb.srk_assets
+            srk = f"table:{t.length}:" + "/".join(f"{r.version},{r.hash_algorithm.tag},{r.key_size},{r.srk_flags},{r.length},{sha(r.crypto_params)}"
+                                                  for r in t.srk_records)
+        b = sb.blob
+        blob = f"{b.flags},{b._size},{b.algorithm.tag},{b.mode},{b.length},{hexs(b.dek_keyblob)},{b.key_identifier}" if b else "-"
+        imgs = ";".join(f"{e._image_offset},{e.image_size},{e.load_address},{e.entry_point},{e.flags},{e.image_meta_data},{e.image_hash.hex()},"
+                        f"{e.image_iv.hex() if e.flags_is_encrypted else '-'},{len(e.image)},{sha(e.image)}" for e in c.image_array)
+        parts.append(f"H:{c.version},{c.length},{c.tag},{c.flags},{c.sw_version},{c.fuse_version},{len(c.image_array)},{c._signature_block_offset} "
+                     f"SB:{sb.length},{sb._srk_assets_offset},{sb.signature_offset},{sb._certificate_offset},{sb._blob_offset} SRK:{srk} "
+                     f"SIG:{hexs(sb.signature.signature_data) if sb.signature else '-'} CERT:{sha(sb.certificate.export()) if sb.certificate else '-'} "
+                     f"BLOB:{blob} IMGS:{imgs}")
+    return "ok:" + " | ".join(parts)
 
 
 def real_layout(ahab):
@@ -395,12 +426,6 @@ def check_line(case_ver, row, binary, deks):
 
 
 # ------------------------------------------------------------------------------------------------ known findings (narrow predicates)
-def f_check_all_shift(case):
-    """AHABContainerV2._load_from_config_flags shifts check_all_signatures by FLAGS_GDET_ENABLE_OFFSET: together with
-    gdet_runtime_behavior=enabled the glitch-detector field becomes 3 and verify() raises SPSDKKeyError."""
-    return case["ver"] == 2 and any(c.get("check_all") == "check_all_signatures" and c["gdet"] == "enabled" for c in case["containers"])
-
-
 def f_encrypted_size_alignment(case, row):
     """an encrypted entry whose image_size_alignment does not divide the stored (padded) image length: the cipher text is zero
     padded AFTER encryption, so the image region of the file no longer decrypts to the data whose SHA-256 is the IV field."""
@@ -461,8 +486,7 @@ def _run_case(cx, case, tag):
     if not s.expect(r[0] == "ok", case, "update_fields() raises on a valid AHAB configuration", r):
         return None
     v1 = pyres(ahab.verify)
-    if not s.expect(v1[0] == "ok", case, "verify() raises on a freshly built AHAB image", v1,
-                    finding="C06-v2-check-all-shift" if f_check_all_shift(case) else None):
+    if not s.expect(v1[0] == "ok", case, "verify() raises on a freshly built AHAB image", v1):
         return None
     e1 = verifier_errors(v1[1])
     rexp = pyres(ahab.export)
@@ -510,6 +534,11 @@ def _run_case(cx, case, tag):
                 and all(p == o and p.signature_block == o.signature_block for p, o in zip(a2.ahab_containers, ahab.ahab_containers)))
         s.expect(same, case, "parse(export(x)) is not equal to x (containers, image entries or signature blocks)",
                  [repr(c) for c in a2.ahab_containers])
+        if cx.drv is not None:
+            got = cx.drv.ask(f"parse v{case['ver']} {row['containers_max_cnt']} {hexs(binary)}")
+            real_d = real_parse_dump(a2)
+            s.compare((case, "parse"), real_d if real_d == got else real_d[:3000], got if real_d == got else got[:3000],
+                      "the parser model reads another object from the exported file than AHABImage.parse")
         for c2, cc in zip(a2.ahab_containers, case["containers"]):      # the verifier needs the DEK to judge encrypted images
             if cc["blob"] and c2.signature_block and c2.signature_block.blob:
                 c2.signature_block.blob.dek = bytes.fromhex(cc["blob"]["dek"][: cc["blob"]["size"] // 4])
@@ -637,13 +666,6 @@ def finding_for_tamper(inp, original, parsed):
     (`get_signature_data() = self._export()[:offset]`), so a corrupted byte that parse() does not keep (reserved fields,
     alignment padding, IV field of a plain entry, SRK parameter-length words) is 'healed' and goes unreported.
     Predicate: the parsed corrupted image re-exports with the ORIGINAL byte at the flipped position."""
-    case, (pos, bit) = inp["case"], inp["flip"]
-    csize = 0x400 if case["ver"] == 1 else 0x4000
-    for k, cc in enumerate(case["containers"]):
-        # C06-srk-set-downgrade: bit 1 of the flags byte turns SRK set "oem" (2) into "none" (0); verify() then skips the
-        # authenticity check although SRK table and signature are still present
-        if cc["srk"] and pos == k * csize + 4 and bit == 1:
-            return "C06-srk-set-downgrade"
     if parsed is None:
         return None
     r = pyres(parsed.export)
@@ -818,8 +840,6 @@ def verify_stream(cx, nper):
                     c["blob"] = {"size": rng.choice([128, 192, 256]), "kid": rng.getrandbits(32), "dek": rng.randbytes(32).hex()}
                     c["images"][0]["enc"] = rng.random() < 0.5
                     c["images"][0]["size_align"] = None
-                if c["check_all"] == "check_all_signatures" and c["gdet"] == "enabled":
-                    c["gdet"] = "disabled"
                 for im in c["images"]:
                     if im["enc"] and im["size_align"]:
                         im["size_align"] = None
@@ -985,6 +1005,90 @@ def fields_stream(cx):
                 s.compare(inp, real, got)
 
 
+# ------------------------------------------------------------------------------------------------ YAML + command line
+def cli_stream(cx, picks):
+    """The same configurations through the YAML file + `nxpimage ahab export / verify / parse` (click CliRunner):
+    the file the CLI writes must be the API export (outside the randomised signature bytes) and satisfy the same
+    independent check; `verify` must succeed on it and fail after a flipped image byte; `parse` must succeed and, for
+    unsigned plain images, the configuration it writes must export to the identical file again."""
+    import yaml
+    from click.testing import CliRunner
+    from spsdk.apps import nxpimage
+    s = cx.s_cli
+    runner = CliRunner()
+
+    def invoke(args):
+        r = runner.invoke(nxpimage.main, args, catch_exceptions=True)
+        return r.exit_code, (r.output or "")[-300:], repr(r.exception)[:200] if r.exception else None
+    for n, (case, info) in enumerate(picks):
+        d = os.path.join(cx.scratch, f"cli{n}")
+        os.makedirs(d, exist_ok=True)
+        cfg = case_config(case, d, "c")
+        cfg["output"] = os.path.join(d, "out.bin")
+        cfg_path = os.path.join(d, "cfg.yaml")
+        with open(cfg_path, "w", encoding="utf-8") as fh:
+            yaml.safe_dump(cfg, fh)
+        s.note(case, cls="signed" if any(c["srk"] for c in case["containers"]) else "plain")
+        # C06-cli-v2-single-table: write_ahab_fuses asks a version-2 container for the hash of a second SRK table it does not have
+        f_idx = lambda r: ("C06-cli-v2-single-table" if case["ver"] == 2 and any(c["srk"] for c in case["containers"])
+                           and r[2] and "IndexError" in r[2] else None)
+        rc = invoke(["ahab", "export", "-c", cfg_path])
+        s.expect(rc[0] == 0, case, "`nxpimage ahab export` fails on a valid configuration", rc, finding=f_idx(rc))
+        if not os.path.exists(cfg["output"]):
+            continue
+        with open(cfg["output"], "rb") as fh:
+            cli_bin = fh.read()
+        api_bin = info["binary"]
+        row = info["row"]
+        if cx.drv is not None:
+            rep = cx.drv.ask(check_line(case["ver"], row, cli_bin, info["deks"]))
+            independent_ok(cx, case, cli_bin, rep, None, report_to=s)
+            mask = bytearray(len(cli_bin))
+            if rep.startswith("ok:"):
+                for r in parse_report(rep):
+                    if "sigdata" in r:
+                        so, sl = (int(x) for x in r["sigdata"].split(":"))
+                        mask[so: so + sl] = b"\x01" * sl
+            same = len(cli_bin) == len(api_bin) and all(m or a == b for a, b, m in zip(cli_bin, api_bin, mask))
+            s.expect(same, case, "the file written by `nxpimage ahab export` differs from AHABImage.export() outside the signature bytes",
+                     first_diff(cli_bin.hex(), api_bin.hex()))
+        blobs = [c["blob"] for c in case["containers"] if c["blob"]]
+        dek_args = ["-k", blobs[0]["dek"][: blobs[0]["size"] // 4]] if len(blobs) == 1 else []
+        if len(blobs) <= 1:
+            rv = invoke(["ahab", "verify", "-f", case["family"], "-b", cfg["output"], "-p"] + dek_args)
+            s.expect(rv[0] == 0, case, "`nxpimage ahab verify` rejects an image exported by `nxpimage ahab export`", rv)
+        # a corrupted image byte must make `verify` fail
+        first = info["ahab"].ahab_containers[0].image_array[0]
+        bad = bytearray(cli_bin)
+        bad[first.image_offset] ^= 0x10
+        bad_path = os.path.join(d, "bad.bin")
+        with open(bad_path, "wb") as fh:
+            fh.write(bad)
+        rb = invoke(["ahab", "verify", "-f", case["family"], "-b", bad_path, "-p"] + dek_args)
+        s.expect(rb[0] != 0, case, "`nxpimage ahab verify` accepts an image with a corrupted image byte", rb)
+        rp = invoke(["ahab", "parse", "-f", case["family"], "-b", cfg["output"], "-o", os.path.join(d, "parsed")])
+        pc = os.path.join(d, "parsed", "parsed_config.yaml")
+        s.expect(rp[0] == 0, case, "`nxpimage ahab parse` fails on an exported image", rp, finding=f_idx(rp))
+        if not os.path.exists(pc):
+            continue
+        plain = not any(c["srk"] or c["blob"] for c in case["containers"])
+        if plain:
+            with open(pc, encoding="utf-8") as fh:
+                pcfg = yaml.safe_load(fh)
+            pcfg["output"] = os.path.join(d, "again.bin")
+            pcfg["target_memory"] = case["tm"] if case["tm"] != "nor" else "standard"
+            pc2 = os.path.join(d, "parsed", "again.yaml")
+            with open(pc2, "w", encoding="utf-8") as fh:
+                yaml.safe_dump(pcfg, fh)
+            r2 = invoke(["ahab", "export", "-c", pc2])
+            again = b""
+            if os.path.exists(pcfg["output"]):
+                with open(pcfg["output"], "rb") as fh:
+                    again = fh.read()
+            s.expect(r2[0] == 0 and again == cli_bin, (case, "reexport"),
+                     "export(config written by `nxpimage ahab parse`) is not the parsed file", (r2, first_diff(again.hex(), cli_bin.hex())))
+
+
 def run(ck):
     logging.disable(logging.CRITICAL)
     ck.lean_obligations(generated=["PyFuns", "AhabConsts"])
@@ -1020,11 +1124,15 @@ def run(ck):
     cx.s_fields = ck.stream("fields", "create_flags (v1/v2, every hash tag), create_meta, get_container_offset -2..6, ImageArrayEntry.parse on random "
                             "blocks, SRKTable.parse on exported tables of the four key types and their single-bit corruptions; non-trivial = distinct input")
     quick = ck.quick
+    import time as _t
+    tm_ = {"start": _t.time()}
     fields_stream(cx)
+    tm_["fields"] = _t.time()
     verify_stream(cx, ck.budget(1, 12))
+    tm_["verify_range"] = _t.time()
     combos = [(r, tm) for r in rows_l for tm in TARGET_MEMS]
     rng.shuffle(combos)
-    extra = ck.budget(25, 1500)
+    extra = ck.budget(12, 1500)
     n = 0
     infos = []
     for row, tm in combos:
@@ -1041,18 +1149,31 @@ def run(ck):
         n += 1
         if info:
             infos.append((case, info))
+    tm_["export"] = _t.time()
+    # ---------------- YAML file + command line for a few of the configurations
+    cx.s_cli = ck.stream("cli", "a sample of the exported configurations (revision 'latest') again through a YAML file and "
+                         "`nxpimage ahab export / verify / parse` (click CliRunner); non-trivial = distinct configuration")
+    cli_pool = [ci for ci in infos if ci[0]["revision"] == "latest" and ci[1].get("check_ok", True)
+                and not f_encrypted_size_alignment(ci[0], ci[1]["row"])]
+    plain_first = sorted(cli_pool, key=lambda ci: any(c["srk"] or c["blob"] for c in ci[0]["containers"]))
+    n_cli = ck.budget(6, 80)
+    cli_stream(cx, plain_first[: n_cli // 3] + [ci for ci in cli_pool if any(c["srk"] for c in ci[0]["containers"])][: n_cli - n_cli // 3])
+    tm_["cli"] = _t.time()
     # ---------------- tampering
     if drv is not None:
-        per = ck.budget(9, 18)
+        per = ck.budget(8, 18)
         pool = [ci for ci in infos if ci[1].get("check_ok")]
         rng.shuffle(pool)
         pool.sort(key=lambda ci: -sum(1 for c in ci[0]["containers"] if c["srk"]))      # signed ones first
-        for n_t, (case, info) in enumerate(pool[: ck.budget(36, 500)]):
+        for n_t, (case, info) in enumerate(pool[: ck.budget(28, 500)]):
             extra_picks = []
             if n_t < ck.budget(1, 12) and case["containers"][0]["srk"]:
                 # systematic part: every bit of the 16-byte header of the first (signed) container
                 extra_picks = [("signed", p_, b_) for p_ in range(16) for b_ in range(8)]
             tamper(cx, case, info, per, extra_picks=extra_picks)
+    tm_["tamper"] = _t.time()
+    ks = list(tm_)
+    ck.extra["seconds_per_stream"] = {ks[i]: round(tm_[ks[i]] - tm_[ks[i - 1]], 1) for i in range(1, len(ks))}
     ck.extra["distribution"] = cx.dist
     ck.extra["flips"] = cx.flips
     ck.extra["signature_discharger"] = "cryptography (direct), key files of the configuration"
